@@ -56,6 +56,7 @@ class Check(core.CheckBase):  # pylint: disable=too-many-public-methods
             'timestamps: instants 1970..2106 under %d TZ settings. distinct = distinct (primitive, parameters, '
             'value-or-chunk); non-trivial = the primitive was actually executed' % len(ZONES))
     SHARDS = {'quick': 4, 'thorough': 16}
+    TZ_ROTATION = False     # this check switches TZ itself, zone by zone
     ASSUMPTIONS = (
         'int.to_bytes/from_bytes and calendar arithmetic of CPython are the reference',
         'negative values are out of domain for fixed-length mpints (parse_mpint has no sign); SSH mpints cover both signs',
